@@ -34,6 +34,8 @@ static int freed[NN], free_begun[NN];
 static int notify_invoked[NN], notify_done[NN];
 static int seen_notified[NN];   /* some observation returned "notified" (stamp of its return) */
 static int stamp;
+static int payload[NN];         /* plain client data written right before nsync_note_notify (X) */
+static int rescue_begun;
 struct wt { int active; int x; int64_t dl; };
 static struct wt waiting[MC_MAXF];
 
@@ -86,6 +88,14 @@ MC_ORACLE static int peek_notified (nsync_note n) {
 	if (*(volatile uint32_t *) &n->notified != 0) return 1;
 	return n->expiry_time_valid && h_ns (n->expiry_time) <= mc_now_ns ();
 }
+/* If the only possible cause of X being notified is one nsync_note_notify call, return the note it was
+   called on (its payload must then be visible to whoever observes X notified), else -1. */
+MC_ORACLE static int sole_cause (int x) {
+	int y, c = -1, k = 0;
+	if (rescue_begun || path_deadline (x) != MC_NEVER) return -1;
+	for (y = x; y >= 0; y = parent_of[y]) if (notify_invoked[y]) { c = y; k++; }
+	return k == 1 ? c : -1;
+}
 MC_ORACLE static int obs_begin (int x) { (void) x; return ++stamp; }
 MC_ORACLE static void obs_end (int x, int inv, int result, const char *what) {
 	if (result) {
@@ -108,6 +118,7 @@ MC_ORACLE static void wait_end (int x, int64_t dl, int r) {
 	}
 	(void) x;
 }
+MC_ORACLE static void mark_rescue (void) { rescue_begun = 1; }
 MC_ORACLE static void mark_free_begun (int x) { free_begun[x] = 1; }
 MC_ORACLE static void mark_freed (int x) { freed[x] = 1; }
 
@@ -117,13 +128,17 @@ static void note_thread (int me) {
 		const char *o = h_op[me][k]; size_t l = strlen (o);
 		int x = idx (o[l-1]), r = 0, inv;
 		switch (o[0]) {
-		case 'n': notify_begin (x); nsync_note_notify (note[x]); notify_end (x); break;
-		case 'i': inv = obs_begin (x); r = nsync_note_is_notified (note[x]); obs_end (x, inv, r, "nsync_note_is_notified"); break;
+		case 'n': payload[x] = 1; notify_begin (x); nsync_note_notify (note[x]); notify_end (x); break;
+		case 'i': inv = obs_begin (x); r = nsync_note_is_notified (note[x]); obs_end (x, inv, r, "nsync_note_is_notified");
+			/* C03: notifying a note happens before any observation that it is notified */
+			if (r) { int y = sole_cause (x); if (y >= 0) mc_assert (payload[y] == 1, "data written before nsync_note_notify is not visible to an observer that saw the note notified"); }
+			break;
 		case 'w': {
 			int64_t dl = l == 2 ? MC_NEVER : o[1] == 'd' ? H_D1 : H_D2;
 			inv = obs_begin (x); wait_begin (x, dl);
 			r = nsync_note_wait (note[x], h_time (dl));
 			wait_end (x, dl, r); obs_end (x, inv, r, "nsync_note_wait");
+			if (r) { int y = sole_cause (x); if (y >= 0) mc_assert (payload[y] == 1, "data written before nsync_note_notify is not visible to a waiter released by it"); }
 			break; }
 		case 'e': {
 			int64_t want = path_deadline (x), got = h_ns (nsync_note_expiry (note[x]));
@@ -169,6 +184,7 @@ static void note_observer (void) {
 		if (cause_done (x) && !got) mc_fail ("note %c is not notified at quiescence although it or an ancestor was notified (or a deadline on its path passed)", letters[x]);
 	}
 	/* rescue: release whoever waits on a note that legitimately never fires */
+	mark_rescue ();
 	for (x = 0; x < NN; x++) if (note[x] != NULL && !freed[x] && !free_begun[x]) { notify_begin (x); nsync_note_notify (note[x]); }
 	left = mc_quiesce ();
 	mc_assert (left == 0, "threads 0x%x still blocked after every live note was notified", left);
